@@ -1,5 +1,5 @@
 use num::bigint::Sign;
-use num::{Signed, Zero};
+use num::{Signed, ToPrimitive, Zero};
 use syntree::node::Children;
 use syntree::{Node, Span};
 
@@ -158,8 +158,18 @@ fn pow(span: Span<u32>, base: Numeric, pow: Numeric) -> Result<Numeric> {
         return Err(Error::new(span, IllegalPowerNonInteger));
     }
 
+    // A quantity raised to a power has its unit raised to the same power.
+    let unit = if base.unit.is_empty() {
+        base.unit
+    } else {
+        match pow.value.to_i32().and_then(|n| base.unit.pow(n)) {
+            Some(unit) => unit,
+            None => return Err(Error::new(span, IllegalPowerTooLarge)),
+        }
+    };
+
     if pow.value.is_zero() {
-        return Ok(Numeric::new(Rational::new(1, 1), base.unit));
+        return Ok(Numeric::new(Rational::new(1, 1), unit));
     }
 
     if base.value.is_zero() {
@@ -167,7 +177,7 @@ fn pow(span: Span<u32>, base: Numeric, pow: Numeric) -> Result<Numeric> {
             return Err(Error::new(span, DivideByZero));
         }
 
-        return Ok(Numeric::new(base.value, base.unit));
+        return Ok(Numeric::new(base.value, unit));
     }
 
     let mut value = Rational::new(1, 1);
@@ -184,7 +194,7 @@ fn pow(span: Span<u32>, base: Numeric, pow: Numeric) -> Result<Numeric> {
         pow -= &sign;
     }
 
-    Ok(Numeric::new(value, base.unit))
+    Ok(Numeric::new(value, unit))
 }
 
 /// Parse a unit.
